@@ -112,19 +112,22 @@ theorem C19_snapshot_name_rules (name : Option String) (args : List String) :
     | nil => rfl
     | cons a rest => cases rest <;> rfl
 
-/-- a snapshot on a callable without any contract checker below it, or re-using a name, is a ValueError;
-a disabled snapshot changes nothing -/
+/-- a snapshot that is not preceded by a postcondition (no checker below it, or a checker with
+preconditions only), or that re-uses a name, is a ValueError; otherwise it is appended; a disabled
+snapshot changes nothing -/
 theorem C19_snapshot_application (n : String) (below : Below) :
     snapshotApply none below = .ok below ∧
-    (below.hasChecker = false → ∃ why, snapshotApply (some n) below = .error (.valueError why)) ∧
-    (below.snapNames.contains n = true → ∃ why, snapshotApply (some n) below = .error (.valueError why)) := by
+    (snapshotApply (some n) below = .ok { below with snapNames := below.snapNames ++ [n] } ↔
+      (below.hasChecker = true ∧ below.nPosts ≠ 0 ∧ n ∉ below.snapNames)) ∧
+    (¬ (below.hasChecker = true ∧ below.nPosts ≠ 0 ∧ n ∉ below.snapNames) →
+      ∃ why, snapshotApply (some n) below = .error (.valueError why)) := by
   refine ⟨rfl, ?_, ?_⟩
-  · intro h; simp [snapshotApply, h]
+  · unfold snapshotApply
+    by_cases hc : below.hasChecker = true <;> by_cases hp : below.nPosts = 0 <;>
+      by_cases hn : n ∈ below.snapNames <;> simp [hc, hp, hn]
   · intro h
     unfold snapshotApply
-    by_cases hc : below.hasChecker = true
-    · have h' : n ∈ below.snapNames := by simpa using h
-      simp [hc, h']
-    · simp [hc]
+    by_cases hc : below.hasChecker = true <;> by_cases hp : below.nPosts = 0 <;>
+      by_cases hn : n ∈ below.snapNames <;> simp_all
 
 end Icontract
